@@ -322,8 +322,9 @@ class Run:
                  sizes: Dict[str, int], nthreads: int = 0,
                  pass_v: bool = True, extra_args=(),
                  schedule: str = "eager", nqp: Dict[str, int] = None,
-                 fail_tags: str = None):
+                 fail_tags: str = None, worker_raise_ok: bool = False):
         self.model = model
+        self.worker_raise_ok = worker_raise_ok
         self.fail_tags = fail_tags   # the integrand raises for this pair
         self.raised = None
         self.schedule = schedule
@@ -461,7 +462,9 @@ class Run:
             self.result = self.interp.call(self.fn, args, {},
                                            self_obj=self.obj)
         except Raised as e:
-            if self.nqp or self.fail_tags is not None:
+            if self.nqp or self.fail_tags is not None or (
+                    self.worker_raise_ok and any(
+                        ev[0] == "thread-raised" for ev in self.events)):
                 self.raised = e.what
                 self.result = None
                 return
